@@ -577,6 +577,18 @@ func runCase(reg *labdriver.Registry, c *caseReq) (resp labdriver.Resp) {
 	}
 	fsub := sr[0].Interface().(*frugal.FSubscription)
 	topic := fsub.Topic()
+	// a sibling subscription made from the SAME provider (same subscriber transport factory) on another
+	// topic: what is published on the main topic must never reach it, and it must not take messages away
+	sibTr, _ := prov.NewSubscriber()
+	sibGot := 0
+	if err := sibTr.Subscribe("c07.sibling."+topic, func(tr thrift.TTransport) error {
+		rec.mu.Lock()
+		sibGot++
+		rec.mu.Unlock()
+		return nil
+	}); err == nil {
+		defer sibTr.Unsubscribe()
+	}
 	if err := b.tap(topic, func(d []byte) {
 		rec.mu.Lock()
 		rec.tap = append(rec.tap, hex.EncodeToString(d))
@@ -694,7 +706,10 @@ func runCase(reg *labdriver.Registry, c *caseReq) (resp labdriver.Resp) {
 		case <-time.After(2 * time.Second):
 		}
 	}
-	return labdriver.Resp{"code": 0, "topic": topic, "events": events, "tap": tap}
+	rec.mu.Lock()
+	sg := sibGot
+	rec.mu.Unlock()
+	return labdriver.Resp{"code": 0, "topic": topic, "events": events, "tap": tap, "sibling_got": sg}
 }
 
 func opRun(reg *labdriver.Registry, raw json.RawMessage) interface{} {
